@@ -261,6 +261,78 @@ def check_C06(tier, seed):
 
 
 
+# ------------------------------------------------------------------------------------------------ C13
+def check_C13(tier, seed):
+    """pipeline run (include vs body written in place) + the same pairs compiled by 8 threads of one process at the same
+    time: the include is resolved through the referenced rule's definition while other threads resolve theirs, and both
+    variants must still compile to what a single thread produces."""
+    import random
+    import subprocess
+    import tempfile
+    import shutil
+    import ggen
+    import grender
+    out, ev, nt, floor = pipeline_check("C13", tier, seed)
+    wd = tempfile.mkdtemp(prefix="vf13_", dir=build.WORK)
+    try:
+        ng = 16 if tier == "quick" else 80
+        texts = {}
+        jf = os.path.join(wd, "jobs_mt.tsv")
+        with open(jf, "w") as f:
+            for i in range(ng):
+                try:
+                    g = ggen.Gen(random.Random("c13mt/%s/%d" % (seed, i)), ggen.profile("include")).grammar()
+                except Exception:
+                    continue
+                for tag, gv in pipeline.inline_variants(g):
+                    gp = os.path.join(wd, "g%d%s.ebnf" % (i, tag))
+                    text = grender.render(gv, None)
+                    with open(gp, "w", encoding="utf-8") as fh:
+                        fh.write(text)
+                    texts["g%d%s" % (i, tag)] = text
+                    f.write("\t".join(["g%d%s" % (i, tag), gp, "-", "-", "vfrt::Ctx" if g.user_ctx else "-"]) + "\n")
+        cg = build.tool_cgdrv()
+
+        def mt(nth):
+            pr = subprocess.run([cg, "genmt", jf, str(nth)], stdout=subprocess.PIPE, stderr=subprocess.DEVNULL, env=build.BASE_ENV, timeout=900)
+            res = {}
+            lines = pr.stdout.decode("utf-8", "replace").splitlines()
+            if pr.returncode != 0 or not lines or lines[-1] != "DONE":
+                return None
+            for l in lines:
+                if l.startswith("MT "):
+                    f_ = l.split(" ")
+                    res.setdefault(f_[1], []).append((f_[4], f_[5], int(f_[2]), int(f_[3]), f_[6] if len(f_) > 6 else "-"))
+            return res
+        ref_mt = mt(1)
+        con_mt = mt(8)
+        compared = 0
+        if ref_mt is None or con_mt is None:
+            out.inconc("concurrent_compile_driver_failed")
+        else:
+            for gid, lst in con_mt.items():
+                want = {(c, h) for (c, h, _, _, _) in ref_mt.get(gid, [])}
+                if len(want) != 1:
+                    out.inconc("single_thread_compile_not_deterministic(see C16)")
+                    continue
+                w = sorted(want)[0]
+                for (c, h, t, rnd_, head) in lst:
+                    compared += 1
+                    if (c, h) != w:
+                        out.violation("include:concurrent-compile-differs:%s" % ("inc" if gid.endswith("inc") else "inl"),
+                                      "%s compiled on thread %d (round %d) while 7 other threads were compiling gave %s (%s...), a single thread gives %s" % (
+                                          "the grammar with includes" if gid.endswith("inc") else "the grammar with the bodies written in place", t, rnd_, c,
+                                          build_unhex_safe(head)[:100] if head != "-" else "", w[0]),
+                                      {"grammar_text": texts.get(gid, ""), "thread": t, "round": rnd_, "class": c, "single_thread_class": w[0], "kind": "variant"})
+                        break
+        out.coverage["concurrent_compilations_compared"] = compared
+        ev += compared
+        nt += compared
+    finally:
+        shutil.rmtree(wd, ignore_errors=True)
+    return out.finish(ev, nt, RULES["C13"] + " Plus: both variants of further include-profile grammars compiled by 8 threads of one process at the same time; every result must be what a single thread produces.", floor=floor)
+
+
 # ------------------------------------------------------------------------------------------------ C14
 def check_C14(tier, seed):
     """pipeline run + the build-script route: a user context type configured through Compile::user_context_type must reach
